@@ -55,14 +55,17 @@ class Session:
         err = io.StringIO()
         saved_warning = warnings.showwarning
         try:
-            with contextlib.redirect_stderr(err), contextlib.redirect_stdout(self.out):
+            # the shell writes results to ITS output file; anything it prints to the process's stdout instead is reported
+            # with the errors (a result must not go astray)
+            stray = io.StringIO()
+            with contextlib.redirect_stderr(err), contextlib.redirect_stdout(stray):
                 try:
                     self.shell.onecmd(line)
                 except Exception as exc:  # noqa: BLE001
                     return self.out.getvalue(), 'EXC:%s' % type(exc).__name__
         finally:
             warnings.showwarning = self.shell.warning
-        return self.out.getvalue(), err.getvalue()
+        return self.out.getvalue(), err.getvalue() + ('STRAY-STDOUT:' + stray.getvalue() if stray.getvalue() else '')
 
     def settings_line(self):
         st = self.shell.settings
@@ -315,6 +318,18 @@ def cli_layer(ctx, text_ok, text_err):
             res = runner.invoke(shell.main, [good, '-o', outpath, q])
             if res.exit_code != 0 or open(outpath).read() != render_api(sess, q) or res.stdout.strip():
                 ctx.record_violation('cli-output-file', 'exit %s stdout %r' % (res.exit_code, res.stdout[:100]))
+            # -o with an empty result, in both formats: the file holds what the API rendering prints, nothing goes to stdout
+            qe = "SELECT date, account FROM #postings WHERE account = 'nothing'"
+            for fmt in ('text', 'csv'):
+                outpath2 = os.path.join(d, 'empty-%s.txt' % fmt)
+                sess.shell.settings.format = fmt
+                res = runner.invoke(shell.main, [good, '-f', fmt, '-o', outpath2, qe])
+                got = open(outpath2).read() if os.path.exists(outpath2) else None
+                ctx.evaluations += 1
+                ctx.count('cli')
+                if res.exit_code != 0 or got is None or got.replace('\r\n', '\n') != render_api(sess, qe).replace('\r\n', '\n') or res.stdout.strip():
+                    ctx.record_violation('cli-output-file', '-f %s -o with an empty result: exit %s file %r stdout %r' % (fmt, res.exit_code, got, res.stdout[:100]))
+            sess.shell.settings.format = 'text'
         finally:
             sess.close()
         # -q suppresses the ledger error report
